@@ -332,7 +332,12 @@ func (c10) Run(c *core.Ctx) {
 			})
 		}
 	}
-	// cyclic digraphs as depends_on
+	dependsOnDigraphs(c, "")
+}
+
+// dependsOnDigraphs loads every labelled depends_on digraph on <=3 services (4: every 7th in the quick tier):
+// accepted iff acyclic.
+func dependsOnDigraphs(c *core.Ctx, idPrefix string) {
 	names := []string{"app", "db", "cache", "web"}
 	for n := 1; n <= 4; n++ {
 		var pairs [][2]int
@@ -349,7 +354,7 @@ func (c10) Run(c *core.Ctx) {
 				return
 			}
 			n, mask := n, mask
-			c.Do(fmt.Sprintf("cycle/n%d/%d", n, mask), func() core.Outcome {
+			c.Do(fmt.Sprintf("%scycle/n%d/%d", idPrefix, n, mask), func() core.Outcome {
 				adj := make([][]int, n)
 				for b, pr := range pairs {
 					if mask&(1<<b) != 0 {
